@@ -17,9 +17,9 @@ fn child_struct(pool: &mut Vec<Decl>, flat: bool) -> usize {
     pool.len() - 1
 }
 
-fn child_enum(pool: &mut Vec<Decl>) -> usize {
+fn child_enum(pool: &mut Vec<Decl>, with_word: bool) -> usize {
     let variants = vec![
-        Variant { rust: "Uno".into(), rename: None, skip: false, word: None, body: VBody::Unit },
+        Variant { rust: "Uno".into(), rename: None, skip: false, word: if with_word { Some(true) } else { None }, body: VBody::Unit },
         Variant { rust: "Duo".into(), rename: None, skip: false, word: None, body: VBody::Newtype(Ty::U32) },
         Variant { rust: "TresX".into(), rename: None, skip: false, word: None, body: VBody::Struct(vec![Field::new("x", Ty::U32)]) },
         Variant { rust: "Skipped".into(), rename: None, skip: true, word: None, body: VBody::Unit },
@@ -43,7 +43,7 @@ pub fn kind_field(kind: usize, slot: usize, pool: &mut Vec<Decl>) -> Field {
             f.tr = Tr::Map;
         }
         7 => f.ty = Ty::Struct(child_struct(pool, false)),
-        8 => f.ty = Ty::Enum(child_enum(pool)),
+        8 => f.ty = Ty::Enum(child_enum(pool, slot % 2 == 1)),
         9 => {
             f.ty = if slot % 2 == 0 { Ty::Struct(child_struct(pool, true)) } else { Ty::BoxStruct(child_struct(pool, true)) };
             f.flatten = true;
@@ -472,6 +472,12 @@ pub fn enum_list_alphabet(prog: &Program) -> Vec<Item> {
         out.push(Item::list(n, vec![Item::nv("p_q", "2"), Item::nv("x", "1"), Item::nv("r", "3")]));
         out.push(Item::list(n, vec![]));
     }
+    // a qualified path whose last segment is a variant name is not that variant
+    if let Some(n) = names.iter().find(|n| !n.contains('-')) {
+        out.push(Item::word(&format!("q::{n}")));
+        out.push(Item::nv(&format!("q::{n}"), "1"));
+        out.push(Item::list(&format!("{n}::{n}"), vec![Item::nv("x", "1")]));
+    }
     out.push(Item::lit("\"lit\""));
     out.push(Item::word("zz"));
     out
@@ -481,8 +487,8 @@ pub fn enum_list_alphabet(prog: &Program) -> Vec<Item> {
 
 pub fn attr_corpus(thorough: bool) -> Vec<Program> {
     let mut out = vec![];
-    let name_sets: Vec<Vec<&str>> = vec![vec!["a"], vec!["a", "b"], vec!["a", "b", "c::d"]];
-    let fwds: Vec<Fwd> = vec![Fwd::Absent, Fwd::All, Fwd::Only(vec!["doc".into(), "allow".into()]), Fwd::Only(vec![]), Fwd::Only(vec!["doc".into(), "a::a".into(), "b".into()])];
+    let name_sets: Vec<Vec<&str>> = vec![vec!["a"], vec!["a", "b"], vec!["a", "c::d", "e::f"]];
+    let fwds: Vec<Fwd> = vec![Fwd::Absent, Fwd::All, Fwd::Only(vec!["doc".into(), "allow".into()]), Fwd::Only(vec![]), Fwd::Only(vec!["doc".into(), "a::a".into(), "z::w".into(), "b".into()])];
     for t in [Trait::FromDeriveInput, Trait::FromField, Trait::FromVariant, Trait::FromTypeParam, Trait::FromAttributes] {
         for (ni, names) in name_sets.iter().enumerate() {
             for (fi, fwd) in fwds.iter().enumerate() {
@@ -558,6 +564,7 @@ pub fn foreign_attrs() -> Vec<&'static str> {
         "#[a()]",
         "#[::a(alpha = 9)]",
         "#[a::a(alpha = 9)]",
+        "#[z::w(k)]",
         "#[doc(hidden)]",
     ]
 }
